@@ -20,16 +20,17 @@ def feed_frame(dec, fmt, fr, ts=None):
             return dec.decode_tcp(n2k.wire_ebyte(n2k.can_id(pgn, src, dst, prio), data)), None
         if fmt == "usb":
             return dec.decode_usb(n2k.wire_usb(n2k.can_id(pgn, src, dst, prio), data)), None
+        ydts = ts if (ts is not None and len(ts) == 12 and ts[2] == ":") else "00:01:54.430"
         if fmt == "yd":
-            return dec.decode_yacht_devices_string(n2k.yd_line(n2k.can_id(pgn, src, dst, prio), data, "R")), None
+            return dec.decode_yacht_devices_string(n2k.yd_line(n2k.can_id(pgn, src, dst, prio), data, "R", False, ydts)), None
         if fmt == "ydT":
-            return dec.decode_yacht_devices_string(n2k.yd_line(n2k.can_id(pgn, src, dst, prio), data, "T")), None
+            return dec.decode_yacht_devices_string(n2k.yd_line(n2k.can_id(pgn, src, dst, prio), data, "T", False, ydts)), None
         if fmt == "ydlow":
-            return dec.decode_yacht_devices_string(n2k.yd_line(n2k.can_id(pgn, src, dst, prio), data, "R", True)), None
+            return dec.decode_yacht_devices_string(n2k.yd_line(n2k.can_id(pgn, src, dst, prio), data, "R", True, ydts)), None
         if fmt == "plain":
-            return dec.decode_basic_string(n2k.plain_line(pgn, src, dst, prio, data, False, ts)), None
+            return dec.decode_basic_string(n2k.plain_line(pgn, src, dst, prio, data, False, ts if ts and len(ts) > 12 else None)), None
         if fmt == "plainz":
-            return dec.decode_basic_string(n2k.plain_line(pgn, src, dst, prio, data, True, ts)), None
+            return dec.decode_basic_string(n2k.plain_line(pgn, src, dst, prio, data, True, None)), None
     except Exception as e:
         return None, e
     raise ValueError(fmt)
@@ -46,6 +47,12 @@ def feed_whole(dec, fmt, fr):
     except Exception as e:
         return None, e
     raise ValueError(fmt)
+
+
+def stamp_for(t):
+    """canboat-plain timestamp text for virtual wall-clock second t."""
+    d = clock.EPOCH + __import__("datetime").timedelta(seconds=t)
+    return d.strftime("%Y-%m-%d-%H:%M:%S.") + "%03d" % (d.microsecond // 1000)
 
 
 class VClock:
